@@ -203,12 +203,13 @@ func (corSelf *CorDef[T]) close() {
 }
 
 func (corSelf *CorDef[T]) doCloseSafe(fn func()) {
+	corSelf.closedM.Lock()
+	defer corSelf.closedM.Unlock()
+	// Checked under the lock: close() closes the channels while holding it
 	if corSelf.IsDone() {
 		return
 	}
-	corSelf.closedM.Lock()
 	fn()
-	corSelf.closedM.Unlock()
 }
 
 // Cor Cor utils instance
